@@ -87,6 +87,7 @@ harness!(fu_push_2, fu::step_push(&UCfg { caps: [2, 0, 0], n: 1, selfwakes: 0, q
 // FuturesOrderedBounded: symbolic 64-bit position counter (wrap + re-basing for every value)
 harness!(fob_poll_c2, fob::step_poll(&OCfg { cap: 2, max_parked: 1, selfwakes: 0 }));
 harness!(fob_poll_c2_p0, fob::step_poll(&OCfg { cap: 2, max_parked: 0, selfwakes: 0 }));
+harness!(fob_poll_c1_p2, fob::step_poll(&OCfg { cap: 1, max_parked: 2, selfwakes: 0 }));
 harness!(fob_poll_c2_p2, fob::step_poll(&OCfg { cap: 2, max_parked: 2, selfwakes: 1 }));
 harness!(fob_push_c2, fob::step_push(&OCfg { cap: 2, max_parked: 1, selfwakes: 0 }));
 harness!(fob_drop_c2, fob::step_drop(&OCfg { cap: 2, max_parked: 1, selfwakes: 0 }));
@@ -99,6 +100,10 @@ harness!(mb_poll_c2, mg::step_poll(&MCfg { cap: 2, selfwakes: 1, items: 1, quiet
 harness!(mb_poll_c2_quiet, mg::step_poll(&MCfg { cap: 2, selfwakes: 0, items: 1, quiet: true }));
 harness!(mu_poll_12_c0, mg::step_poll_unbounded(&MUCfg { caps: [1, 2], cursor: 0, selfwakes: 0, items: 1 }));
 harness!(mu_push_12, mg::step_push_unbounded(&MUCfg { caps: [1, 2], cursor: 0, selfwakes: 0, items: 0 }));
+harness!(mb_end_many_6, mg::end_many());
+harness!(mu_rot_124_c0, mg::rot_unbounded(0, 0b001, 0b001));
+harness!(mu_rot_124_c1, mg::rot_unbounded(1, 0b111, 0b011));
+harness!(fub_stale_many, fub::stale_many());
 harness!(mu_poll_12_c1, mg::step_poll_unbounded(&MUCfg { caps: [1, 2], cursor: 1, selfwakes: 0, items: 1 }));
 // buffered adapters
 harness!(ad_bu_n2, ad::step_buffer_unordered(&ACfg { n: 2, selfwakes: 0, parked: 0, max_remaining: 2 }));
@@ -194,6 +199,7 @@ pub fn table() -> &'static [(&'static str, fn())] {
         ("fu_cur_124_c2", fu_cur_124_c2),
         ("fob_poll_c2", fob_poll_c2),
         ("fob_poll_c2_p2", fob_poll_c2_p2),
+        ("fob_poll_c1_p2", fob_poll_c1_p2),
         ("fob_push_c2", fob_push_c2),
         ("fob_new", fob_new),
         ("fob_drop_c2", fob_drop_c2),
@@ -220,6 +226,10 @@ pub fn table() -> &'static [(&'static str, fn())] {
         ("mb_poll_c2_quiet", mb_poll_c2_quiet),
         ("mu_poll_12_c0", mu_poll_12_c0),
         ("mu_poll_12_c1", mu_poll_12_c1),
+        ("mb_end_many_6", mb_end_many_6),
+        ("mu_rot_124_c0", mu_rot_124_c0),
+        ("mu_rot_124_c1", mu_rot_124_c1),
+        ("fub_stale_many", fub_stale_many),
         ("fu_poll_12_c1", fu_poll_12_c1),
         ("fu_poll_12_c2", fu_poll_12_c2),
         ("fu_push_12", fu_push_12),
